@@ -97,7 +97,7 @@ def err(e: BaseException) -> str:
 
 
 def cls_char(r: str) -> str:
-    return "a" if r.startswith("ok") else {"err StyleError": "s", "err ValueError:spec": "v"}.get(r, "r")
+    return "a" if r.startswith("ok") else {"err StyleError": "s", "err ValueError:spec": "v", "err ValueError": "r"}.get(r, "x")
 
 
 CLS_NAME = {"v": "ValueError:spec", "r": "ValueError", "s": "StyleError"}
@@ -344,13 +344,24 @@ def _gif():
     return _GIF
 
 
-def make_image(style: str, kind: str):
+_SUB: dict = {}
+
+
+def klass(style: str, depth: int = 0):
+    """the style class, or an application-defined subclass of it `depth` levels down (defining nothing)"""
+    import types
+    if (style, depth) not in _SUB:
+        _SUB[style, depth] = CLASSES[style] if depth == 0 else types.new_class(f"App{depth}{style.title()}", (klass(style, depth - 1),))
+    return _SUB[style, depth]
+
+
+def make_image(style: str, kind: str, depth: int = 0, seek: int = 1):
     """a fresh instance with the given size setting (dynamic `Size` member / fixed), still or animated"""
     env.set_env(cell_size=(8, 16), name={"kitty": "kitty", "iterm2": "wezterm"}.get(style, ""))
-    cls = CLASSES[style]
+    cls = klass(style, depth)
     if kind.startswith("anim"):
         img = cls(_gif(), width=3) if kind == "animfixed" else cls(_gif())
-        img.seek(1)
+        img.seek(seek)
         return img
     if kind == "fixedw":
         return cls(_PIL, width=3)
@@ -398,7 +409,7 @@ def run_recorded(thunk):
     try:
         out = thunk()
         res = None
-    except (ValueError, StyleError, TypeError) as e:
+    except (ValueError, StyleError, TypeError, RecursionError, AttributeError, KeyError) as e:
         res = err(e)
     rec = list(REC)
     REC.clear()
@@ -559,6 +570,18 @@ class C19(Property):
                         continue
                     yield Case(f"sweep {style} {hx(ALPHABET)} {hx(pre)} {L - pl}",
                                {"op": "sweep", "style": style, "alphabet": ALPHABET, "prefix": pre, "k": L - pl}, f"sweep-{style}-{L}")
+        # the same sweep on application-defined subclasses (1 and 2 levels below the style class)
+        for style in CLASSES:
+            for depth, lm in ((1, lmax - 1), (2, lmax - 2)):
+                for L in range(0, lm + 1):
+                    pl = max(0, L - 3)
+                    for pre in itertools.product(ALPHABET, repeat=pl):
+                        pre = "".join(pre)
+                        if pl and "+" not in pre and pre[0] not in "<.":
+                            continue
+                        yield Case(f"sweepk {style} {depth} {hx(ALPHABET)} {hx(pre)} {L - pl}",
+                                   {"op": "sweep", "style": style, "depth": depth, "alphabet": ALPHABET, "prefix": pre, "k": L - pl},
+                                   f"sweepk-{style}-{depth}-{L}")
         smax = 6 if tier == "thorough" else 4
         for style in CLASSES:
             for L in range(0, smax + 1):
@@ -578,20 +601,26 @@ class C19(Property):
             line = f"{op} {style} {hx(s)}"
         return Case(line, d, kind or op, nontrivial)
 
-    def fentry_case(self, style, size_kind, glue, s, cols, lines, kind="fentry"):
+    def fentry_case(self, style, size_kind, glue, s, cols, lines, kind="fentry", depth=0):
         """`__format__` through the public glue on a fresh instance with the given size setting; the way the
         dynamic size resolves is taken from the real code (it is a parameter of the model)"""
         env.set_env(term_size=(cols, lines))
-        img = make_image(style, size_kind)
+        img = make_image(style, size_kind, depth)
         sz, frame = img._size, img.tell()
         rc = rl = 0
         if isinstance(sz, C.Size):
-            tmp = make_image(style, size_kind)
+            tmp = make_image(style, size_kind, depth)
             _orig_set_size(tmp, sz)
             rc, rl = tmp._size
-        line = f"fentry {style} {cols} {lines} {size_str(sz)} {frame} {rc} {rl} {glue} {hx(s)}"
+        line = f"fentry {style} {depth} {cols} {lines} {size_str(sz)} {frame} {rc} {rl} {glue} {hx(s)}"
         return Case(line, {"op": "fentry", "style": style, "spec": s, "cols": cols, "lines": lines,
-                           "size_kind": size_kind, "glue": glue}, kind, nontrivial=True)
+                           "size_kind": size_kind, "glue": glue, "depth": depth}, kind, nontrivial=True)
+
+    def centry_case(self, entry, style, depth, s, cols=80, lines=30, kind="centry"):
+        """one specifier through one entry point on (an instance of) the style class or a subclass of it"""
+        return Case(f"centry {entry} {style} {depth} {cols} {lines} {hx(s)}",
+                    {"op": "centry", "entry": entry, "style": style, "depth": depth, "spec": s, "cols": cols, "lines": lines},
+                    f"{kind}-{entry}", nontrivial=True)
 
     def draw_case(self, rng, style, cols, lines, p, kind="draw"):
         """explicit parameters -> a `draw` request"""
@@ -625,8 +654,32 @@ class C19(Property):
                     if tier == "quick" and kind.startswith("anim") and n % 2:
                         continue
                     yield self.fentry_case(style, kind, GLUES[n % 3], s, *[(40, 20), (24, 12), (80, 30)][n % 3], kind="fentry-fixed")
+        # every entry point x the style class and subclasses of it x valid/invalid style parts
+        especs = {"block": ["", "<5.^2#", ".", "+L", "1+x"],
+                  "kitty": ["+L", "+z5", "<10.^4#+Wz-1m1c9", "5.5+c9", "+x", "+xL", "+ m1", "+z1m1", "+c1m0", "+m1z1", "+z2147483648", ".", ".+L", "#.5+m0"],
+                  "iterm2": ["+A", "+m1", ">10.^4##+Wm1c9", "5.5+c9", "+x", "+xL", "+ m1", "+z1m1", "+c1m0", "+LL", "+Lx", "1.", ".##+L", "#+c0"]}
+        for style in CLASSES:
+            for depth in (0, 1, 2):
+                for entry in ("check", "format", "iter", "urwid"):
+                    for s in especs[style]:
+                        yield self.centry_case(entry, style, depth, s, kind="centry-fixed")
+        for style in CLASSES:
+            for i, s in enumerate(fspecs[style]):
+                for depth in (1, 2):
+                    kind = SIZE_KINDS[(i + depth) % len(SIZE_KINDS)]
+                    yield self.fentry_case(style, kind, GLUES[i % 3], s, 40, 20, kind="fentry-sub", depth=depth)
         while True:
             style = rng.choice(["block", "kitty", "kitty", "iterm2", "iterm2"])
+            if rng.random() < 0.05:
+                s = self.rand_sentence(rng, style, small=True)
+                if rng.random() < 0.5:
+                    s = self.mutate(rng, s)
+                big = any(m.end() - m.start() >= 3 and not (s[:m.start()].endswith("#") or s[:m.start()].endswith("#."))
+                          for m in re.finditer(r"[0-9]+", s))
+                entry = rng.choice(["check", "format", "iter", "urwid"])
+                yield self.centry_case("check" if big else entry, style, rng.choice([0, 1, 1, 2]), s,
+                                       *rng.choice([(80, 30), (40, 20), (24, 12)]))
+                continue
             if rng.random() < 0.04:
                 s = self.rand_sentence(rng, style, small=True)
                 if rng.random() < 0.6:
@@ -635,7 +688,8 @@ class C19(Property):
                           for m in re.finditer(r"[0-9]+", s))
                 if not big:
                     yield self.fentry_case(style, rng.choice(SIZE_KINDS), rng.choice(GLUES), s,
-                                           *rng.choice([(40, 20), (24, 12), (30, 30), (80, 30)]), kind="fentry")
+                                           *rng.choice([(40, 20), (24, 12), (30, 30), (80, 30)]), kind="fentry",
+                                           depth=rng.choice([0, 0, 1, 2]))
                 continue
             cols, lines = rng.choice([(80, 30), (80, 30), (1, 1), (2, 2), (3, 3), (200, 70), (rng.randrange(1, 300), rng.randrange(1, 100))])
             r = rng.random()
@@ -739,7 +793,7 @@ class C19(Property):
     def check_one(self, cls, s):
         try:
             return "ok " + fmt_result(cls._check_format_spec(s))
-        except (ValueError, StyleError) as e:
+        except (ValueError, StyleError, RecursionError, TypeError, AttributeError, KeyError) as e:
             return err(e)
 
     def stylespec_one(self, cls, s):
@@ -753,7 +807,7 @@ class C19(Property):
         op = d["op"]
         if op in ("sweep", "ssweep"):
             env.set_env(term_size=(80, 30))
-            cls = CLASSES[d["style"]]
+            cls = klass(d["style"], d.get("depth", 0))
             one = self.check_one if op == "sweep" else self.stylespec_one
             classes, h = [], 0
             for t in itertools.product(d["alphabet"], repeat=d["k"]):
@@ -804,7 +858,7 @@ class C19(Property):
         if op == "styleargs":
             try:
                 return "ok " + fmt_args(cls._check_style_args(dict(d["args"])))
-            except (ValueError, StyleError, TypeError) as e:
+            except (ValueError, StyleError, TypeError, RecursionError, AttributeError, KeyError) as e:
                 return "err ValueError" if isinstance(e, TypeError) else err(e)
         env.set_env(term_size=(d["cols"], d["lines"]))
         if op == "check":
@@ -814,8 +868,10 @@ class C19(Property):
             evs, res, _ = run_recorded(lambda: format(img, s))
             return " ".join([str(len(evs))] + evs) + " " + res
         if op == "fentry":
-            img = make_image(d["style"], d["size_kind"])
+            img = make_image(d["style"], d["size_kind"], d.get("depth", 0))
             return self.run_fentry(img, d["glue"], s)[0]
+        if op == "centry":
+            return self.run_centry(d)[0]
         if op == "draw":
             img = image_of(d["style"])
             evs, res, _ = self.run_draw(img, d["p"])
@@ -833,7 +889,7 @@ class C19(Property):
             try:
                 out = glue_call(glue, img, s)
                 res = None
-            except (ValueError, StyleError, TypeError) as e:
+            except (ValueError, StyleError, TypeError, RecursionError, AttributeError, KeyError) as e:
                 res = err(e)
         finally:
             sys.stdout = old
@@ -862,6 +918,78 @@ class C19(Property):
                 res = "ok " + fmt_result((*fr[0][1:], ri[0][1], ri[0][2]))
         line = " ".join([str(len(evs))] + evs) + " " + res + f" state {size_str(img._size)} {img.tell()}"
         return line, res, out, buf.getvalue()
+
+    def run_centry(self, d):
+        """-> (canonical result, first rendered string or None)"""
+        entry, style, depth, s = d["entry"], d["style"], d["depth"], d["spec"]
+        cls = klass(style, depth)
+        if entry == "check":
+            return self.check_one(cls, s), None
+        REC.clear()
+        out = None
+        try:
+            if entry == "format":
+                out = format(make_image(style, "fixedw", depth), s)
+            elif entry == "iter":
+                it = C.ImageIterator(make_image(style, "animfixed", depth, seek=0), 1, s, False)
+                try:
+                    out = next(it)
+                finally:
+                    it.close()
+            elif entry == "urwid":
+                from term_image.widget import UrwidImage
+                w = UrwidImage(make_image(style, "fixedw", depth), s)
+                args = {k: v for k, v in w._ti_style_args.items() if k in ("method", "mix", "compress")}  # the widget sets z_index, blend, split_cells itself
+                REC.clear()
+                return f"ok {fmt_optc(w._ti_h_align)} * {fmt_optc(w._ti_v_align)} * {fmt_alpha(w._ti_alpha)} {fmt_args(args)}", None
+            res = None
+        except (ValueError, StyleError, RecursionError, TypeError, AttributeError, KeyError) as e:
+            res = err(e)
+        rec = list(REC)
+        REC.clear()
+        if res is None:
+            ri = [r for r in rec if r[0] == "render_image"]
+            fr = [r for r in rec if r[0] == "format_render"]
+            if len(ri) != 1 or len(fr) != 1:
+                res = f"ok calls render_image={len(ri)} format_render={len(fr)}"
+            else:
+                res = "ok " + fmt_result((*fr[0][1:], ri[0][1], ri[0][2]))
+        return res, out
+
+    def oracle_centry(self, d):
+        """every entry point, on the style class and on application subclasses, accepts exactly the documented
+        sentences of the style, with the documented denotation, and rejects with the documented error"""
+        entry, style, depth, s, cols, lines = d["entry"], d["style"], d["depth"], d["spec"], d["cols"], d["lines"]
+        env.set_env(term_size=(cols, lines))
+        res, out = self.run_centry(d)
+        key = f"{entry}/sub{depth}/{style}/{s!r}"
+        where = f"{entry} on {klass(style, depth).__name__}"
+        if entry != "urwid":
+            f = self.oracle_spec(style, s, cols, lines, res, where)
+            if f:
+                f.key = f.key.replace(f"{style}/", f"{entry}/sub{depth}/{style}/", 1)
+                return f
+            if entry == "iter" and style == "block" and res.startswith("ok"):
+                ref = format(make_image(style, "animfixed", depth, seek=0), s)
+                REC.clear()
+                if out != ref:
+                    return Failure(f"iter-output/{key}", f"first frame of ImageIterator(image, 1, {s!r}) differs from format(image, {s!r})")
+            return None
+        pr = doc_parse(style, s)
+        if pr[0] == "err":
+            if res.startswith("ok"):
+                return Failure(f"accepts-nonsentence/{key}", f"{where} accepts the non-sentence {s!r}: {res}")
+            if res.split(" ")[1] not in pr[1]:
+                return Failure(f"error-kind/{key}", f"{where}: rejecting {s!r} raised {res}, documented: {sorted(pr[1])}")
+            return None
+        if not res.startswith("ok"):
+            return Failure(f"rejects-sentence/{key}", f"{where}: {s!r} is a sentence of the documented grammar but raised {res}")
+        h, _, v, _, alpha, args = doc_denote(pr[1], cols, lines, 40 / 255)
+        args = {k: x for k, x in args.items() if k != "z_index"}
+        want = f"ok {fmt_optc(h)} * {fmt_optc(v)} * {fmt_alpha(alpha)} {fmt_args(args)}"
+        if res != want:
+            return Failure(f"denotation/{key}", f"{where}: {s!r} denotes {want}, the widget holds {res}")
+        return None
 
     def run_draw(self, img, p):
         alpha = C._ALPHA_THRESHOLD if p["alpha"] == "default" else p["alpha"]
@@ -900,17 +1028,20 @@ class C19(Property):
         d = case.data
         op = d["op"]
         if op == "sweep":
-            cls = CLASSES[d["style"]]
+            cls = klass(d["style"], d.get("depth", 0))
             classes = impl_result.split(" ")[1]
             for i, t in enumerate(itertools.product(d["alphabet"], repeat=d["k"])):
                 s = d["prefix"] + "".join(t)
                 pr = doc_parse(d["style"], s)
                 got = classes[i]
-                ok = (got == "a") if pr[0] == "ok" else (got != "a" and CLS_NAME[got] in pr[1])
+                ok = (got == "a") if pr[0] == "ok" else (got != "a" and CLS_NAME.get(got) in pr[1])
                 if not ok:
                     f = self.oracle_spec(d["style"], s, 80, 30, self.check_one(cls, s), "sweep") or \
                         Failure(f"sweep/{d['style']}/{s!r}", "sweep class differs but single evaluation agrees")
-                    f.case = self.single("check", d["style"], s, kind="sweep-witness")
+                    if d.get("depth"):
+                        f.key = f.key.replace(f"{d['style']}/", f"check/sub{d['depth']}/{d['style']}/", 1)
+                    f.case = (self.centry_case("check", d["style"], d["depth"], s, kind="sweep-witness") if d.get("depth")
+                              else self.single("check", d["style"], s, kind="sweep-witness"))
                     return f
             return None
         if op == "ssweep":
@@ -921,7 +1052,7 @@ class C19(Property):
                     continue
                 pr = doc_style(d["style"], s)
                 got = classes[i]
-                ok = (got == "a") if pr[0] == "ok" else (got != "a" and CLS_NAME[got] in pr[1])
+                ok = (got == "a") if pr[0] == "ok" else (got != "a" and CLS_NAME.get(got) in pr[1])
                 if not ok:
                     return Failure(f"style/{d['style']}/{s!r}", f"style part {s!r}: documented {pr}, code class {got!r}",
                                    case=self.single("stylespec", d["style"], s, kind="ssweep-witness"))
@@ -932,6 +1063,8 @@ class C19(Property):
             return self.oracle_format(d)
         if op == "fentry":
             return self.oracle_fentry(d)
+        if op == "centry":
+            return self.oracle_centry(d)
         return None
 
     def oracle_fentry(self, d):
@@ -940,12 +1073,12 @@ class C19(Property):
         parameters prints and leaves nothing changed either"""
         style, s, cols, lines, kind, glue = d["style"], d["spec"], d["cols"], d["lines"], d["size_kind"], d["glue"]
         env.set_env(term_size=(cols, lines))
-        img = make_image(style, kind)
+        img = make_image(style, kind, d.get("depth", 0))
         before = full_snapshot(img)
         _, res, out, written = self.run_fentry(img, glue, s)
         after = full_snapshot(img)
-        key = f"{style}/{kind}/{glue}/{s!r}"
-        f = self.oracle_spec(style, s, cols, lines, res, f"{glue} on a {kind} image")
+        key = f"{style}/{kind}/{glue}/{s!r}" + (f"/sub{d['depth']}" if d.get("depth") else "")
+        f = self.oracle_spec(style, s, cols, lines, res, f"{glue} on a {kind} image of {type(img).__name__}")
         if f:
             f.key = f.key.replace(f"{style}/", f"{style}/{kind}/{glue}/", 1)
             return f
@@ -962,7 +1095,7 @@ class C19(Property):
         p = doc_parse(style, s)[1]
         if p["pad_width"] > cols or (isinstance(p["alpha"], float) and p["alpha"] >= 1.0):
             return None
-        img2 = make_image(style, kind)
+        img2 = make_image(style, kind, d.get("depth", 0))
         _, dres, printed = self.run_draw(img2, p)
         if not dres.startswith("ok"):
             return Failure(f"draw-rejects/{key}", f"draw() with the parameters denoted by {s!r} raised {dres}")
